@@ -339,6 +339,26 @@ fn plans_c20(tier: Tier) -> Vec<Plan> {
     v
 }
 
+/// C12, the broker's effective routing: one plan per filter shape, four topics, every order
+/// of subscribing and publishing (the per-topic filter cache is filled by the first publish
+/// and patched by later subscriptions)
+fn plans_c12(tier: Tier) -> Vec<Plan> {
+    let q = tier == Tier::Quick;
+    let filters: &[&str] = &[
+        "a/b/#", "+/#", "a/+/#", "a/#", "+/b/#", "a//#", "+/+/#", "a/+", "+", "+/+", "a/b", "+/", "/#", "é/#", "a/é/+",
+    ];
+    let seconds: &[&str] = if q { &["#"] } else { &["#", "a/+", "+/b"] };
+    let mut v = vec![];
+    for f in filters {
+        for s2 in seconds {
+            let mut c = mk("C12", 0, 4, &["a/b", "a", "a/", "/", "a/é/b"], &[f, s2]);
+            c.manual = false;
+            v.push(Plan { cfg: c, depth_by_devs: vec![if q { 4 } else { 5 }] });
+        }
+    }
+    v
+}
+
 fn plans_c19(tier: Tier) -> Vec<Plan> {
     let q = tier == Tier::Quick;
     let mut v = vec![];
@@ -364,6 +384,7 @@ fn plans(prop: &str, tier: Tier) -> Vec<Plan> {
         "C17" => plans_c17(tier),
         "C19" => plans_c19(tier),
         "C20" => plans_c20(tier),
+        "C12" => plans_c12(tier),
         _ => vec![],
     }
 }
